@@ -811,6 +811,9 @@ static void cmd_dump(void) {
             if (!cr_open(slot, r, c, mdv)) continue;
             int64_t total = 0; long calls = 0;
             const char* end = "OK";
+            /* bound for the runaway guard: level entries of the chunk (more than rows for repeated leaves) */
+            int64_t rem0 = carquet_column_remaining(G.cr[slot].cr);
+            int64_t bound = rem0 > rgrows ? rem0 : rgrows;
             for (;;) {
                 /* never ask for more than one row beyond what the reader says is left: keeps the exact-size
                  * buffers small when the caller passes a huge batch ("everything in one call") */
@@ -823,7 +826,7 @@ static void cmd_dump(void) {
                 if (n < 0) { end = "ERR"; break; }
                 if (n == 0) break;
                 total += n;
-                if (total > rgrows + 4 * batch + 64) { end = "OVERRUN"; break; }
+                if (total > bound + 4 * batch + 64) { end = "OVERRUN"; break; }
             }
             printf("chunk_end rg=%d col=%d rows=%lld calls=%ld end=%s\n", (int)r, (int)c, (long long)total, calls, end);
             cr_free_slot(slot);
